@@ -42,12 +42,12 @@ vars == <<cfg, pv, rv, pc, wire, delivered, invoked, status, errname, rwire, ret
 \* the oracle: what the design promises
 \* nil and empty lists / maps / byte strings are the same "nothing there" (a query string or a header cannot
 \* even express the difference)
-Emptyish(a, v) == v # Absent /\ ((a.nest \in {"elem", "mapkey", "mapval", "elem_nested", "mapval_nested", "mapkey_alias"} /\ v.cn = 0) \/ (a.kind = "bytes" /\ v.n = 0))
+Emptyish(a, v) == v # Absent /\ ((a.nest \in {"elem", "mapkey", "mapval", "elem_nested", "mapval_nested", "mapkey_alias", "whole_elem", "whole_mapval"} /\ v.cn = 0) \/ (a.kind = "bytes" /\ v.n = 0))
 \* (for a required list the generated client sends [] when the caller left it nil: either reading is allowed;
 \* an optional list that is left unset is simply not there, and constraints apply to present values only)
 \* the zero value of a defaulted (non-pointer) field is indistinguishable from "unset" for the caller: either
 \* reading is allowed
-IsContainer(a) == a.nest \in {"elem", "mapkey", "mapval", "elem_nested", "mapval_nested", "mapkey_alias"} \/ a.kind = "bytes"
+IsContainer(a) == a.nest \in {"elem", "mapkey", "mapval", "elem_nested", "mapval_nested", "mapkey_alias", "whole_elem", "whole_mapval"} \/ a.kind = "bytes"
 EmptyOf(a) == IF a.kind = "bytes" THEN V("bytes", 0, "plain", 1) ELSE V(a.kind, 3, "plain", 0)
 AllowedDelivered(a, v) ==
   IF v = Absent THEN (IF a.mode = "default" THEN {DefaultOf(a)} ELSE IF IsContainer(a) /\ a.mode = "required" THEN {Absent, EmptyOf(a)} ELSE {Absent})
@@ -96,7 +96,7 @@ ReadBack(a, w) ==
       c == IF w.loc = "none" THEN Absent ELSE Carried(a, w.v) IN
   IF w.loc = "none" THEN dflt
   ELSE IF a.loc = "body" THEN c
-  ELSE IF a.kind = "string" /\ a.nest \in {"direct", "alias"} /\ c.s = "empty" /\ Dev("param.empty_string_is_absent") THEN dflt
+  ELSE IF a.kind = "string" /\ a.nest \in {"direct", "alias", "whole"} /\ c.s = "empty" /\ Dev("param.empty_string_is_absent") THEN dflt
   ELSE IF a.loc = "path" /\ a.kind = "string" /\ c.s = "pcthex" /\ Dev("mux.double_unescape")
        THEN [c EXCEPT !.s = "plain", !.n = c.n - 2]
   ELSE c
@@ -114,8 +114,8 @@ ServerValid(a, d) ==
 \*                                  decoding and validating path / query / header parameters
 CookieDropsErrorsOf(i) ==
   /\ Dev("decode.required_cookie_drops_param_errors")
-  /\ cfg.pa[i].loc \in {"path", "query", "header"}
-  /\ \E j \in PIdxOf(cfg.pa) : cfg.pa[j].loc = "cookie" /\ cfg.pa[j].mode = "required" /\ wire[j].loc # "none"
+  /\ \E j \in PIdxOf(cfg.pa) : /\ cfg.pa[j].loc = "cookie" /\ cfg.pa[j].mode = "required" /\ wire[j].loc # "none"
+                               /\ (cfg.pa[i].loc \in {"path", "query", "header"} \/ (cfg.pa[i].loc = "cookie" /\ j > i))   \* decoded after i
 ServerViolation(a, d) ==
   IF d = Absent /\ a.mode = "optional" /\ a.rule = "cminlen" THEN "invalid_length" ELSE ViolationOf(a, d)
 
@@ -124,7 +124,7 @@ ServerViolation(a, d) ==
 \* sample multi-attribute methods without enumerating the whole product as initial states.
 FixedAttr == Attr("int", "body", "required", "none", "direct")
 FixedVal == V("int", 3, "plain", 1)
-ResAttrOK(a) == a.loc \in {"header", "cookie", "body"}     \* result attributes travel in header, cookie or body only
+ResAttrOK(a) == a.loc \in {"header", "cookie", "body"} /\ (a.nest \in Whole => a.loc = "body")     \* result attributes travel in header, cookie or body only
 Init ==
   /\ cfg = [pa |-> <<>>, ra |-> <<>>, tagged |-> FALSE, devs |-> Deviations] /\ pv = <<>> /\ rv = <<>>
   /\ pc = "pick" /\ wire = <<>> /\ delivered = <<>> /\ invoked = FALSE /\ status = 0 /\ errname = "none"
